@@ -175,12 +175,13 @@ def loop_exit_target(F, header):
 # ------------------------------------------------------------------ obligations
 class Ob:
     def __init__(self, src, func, site, hyp, expect, nc, reason='', config='host', noinline=(), rule=None,
-                 min_sites=1, together=False, extra_hyps=()):
+                 min_sites=1, together=False, extra_hyps=(), marker=None, passes='default<O2>'):
         """hyp / nc: ('pin', c) | ('mask', m) | ('assume', pred, value)   value: int or Var(...)
         expect: callable(F) -> (bool, detail)"""
         self.src, self.func, self.site, self.hyp, self.expect, self.nc = src, func, site, hyp, expect, nc
         self.reason, self.config, self.noinline, self.rule = reason, config, tuple(noinline), rule
-        self.min_sites, self.together, self.extra_hyps = min_sites, together, extra_hyps
+        self.min_sites, self.together, self.extra_hyps, self.marker = min_sites, together, extra_hyps, marker
+        self.passes = passes
 
     def _mk(self, U, s, h):
         kind = h[0]
@@ -192,6 +193,17 @@ class Ob:
             n, ty = s['n'], s['ty']
             at = s.get('at_block')
             param = s.get('param', False)
+        if kind == 'site':
+            return dict(kind='site', n=n)
+        if kind == 'pinexpr':       # ('pinexpr', op, A, B)  A/B: int | selector (first site's value)
+            def nm(x):
+                if isinstance(x, int):
+                    return x
+                vs = x.sites(U, self.func)
+                if not vs:
+                    raise AnalysisBroken('operand %s of a relational hypothesis not found in %s' % (x, self.func))
+                return vs[0][1]['n']
+            return dict(kind='pinexpr', n=n, ty=ty, op=h[1], a=nm(h[2]), b=nm(h[3]))
         if kind == 'pin':
             v = h[1]
             if ty == 'i1':
@@ -254,15 +266,30 @@ def run_obligations(chk, obs, rule_default='fold', jobs=16, missing_is_violation
     def work(t):
         ob, U, F, rule, name, ss = t
         try:
-            hy = [ob._mk(U, s, ob.hyp) for s in ss] + [ob._mk(U, x[0].sites(U, ob.func)[0][1], x[1]) for x in ob.extra_hyps]
+            def extra():
+                r = []
+                for x in ob.extra_hyps:
+                    xs = x[0].sites(U, ob.func)
+                    if not xs:
+                        raise AnalysisBroken('site %s of an additional hypothesis vanished from %s' % (x[0], ob.func))
+                    for _, s2 in (xs if getattr(x[0], 'together', False) else xs[:1]):
+                        r.append(ob._mk(U, s2, x[1]))
+                return r
+            mk = []
+            if ob.marker is not None:
+                ms = ob.marker.sites(U, ob.func)
+                if not ms:
+                    raise AnalysisBroken('marker site %s vanished from %s' % (ob.marker, ob.func))
+                mk = [ob._mk(U, ms[0][1], ('site',))]
+            hy = mk + [ob._mk(U, s, ob.hyp) for s in ss] + extra()
             hy = [_place(U, F, h) for h in hy]
-            Fo = U.optimise(ob.func, hy, ob.noinline)
+            Fo = U.optimise(ob.func, hy, ob.noinline, ob.passes)
             okk, det = ob.expect(Fo)
             ncres = None
             if ob.nc is not None:
-                hn = [ob._mk(U, s, ob.nc) for s in ss] + [ob._mk(U, x[0].sites(U, ob.func)[0][1], x[1]) for x in ob.extra_hyps]
+                hn = mk + [ob._mk(U, s, ob.nc) for s in ss] + extra()
                 hn = [_place(U, F, h) for h in hn]
-                Fn = U.optimise(ob.func, hn, ob.noinline)
+                Fn = U.optimise(ob.func, hn, ob.noinline, ob.passes)
                 ncres = ob.expect(Fn)
             return (t, okk, det, ncres, None)
         except AnalysisBroken as e:
@@ -309,6 +336,10 @@ def _hs(h):
         return ''
     if h[0] == 'pin':
         return '==%s' % (h[1],)
+    if h[0] == 'pinexpr':
+        return '== %s %s %s' % (h[2], h[1], h[3])
+    if h[0] == 'site':
+        return ''
     if h[0] == 'mask':
         return '&%d' % h[1]
     if h[0] == 'assume':
@@ -664,3 +695,34 @@ class FieldLoad:
 
     def __str__(self):
         return 'load of ' + self.name
+
+
+class LocalLoad:
+    """loads of the local variable `var` (an alloca that survives mem2reg because its address is taken)"""
+    together = True
+
+    def __init__(self, var, nth=None):
+        self.var, self.nth = var, nth
+
+    def sites(self, U, fname):
+        F = U.func(fname)
+        al = None
+        for d in F.f.get('declares', []):
+            if d['var'] == self.var:
+                al = d['v']
+        if al is None:
+            return []
+        r = []
+        for i in F.insts.values():
+            if i['op'] == 'load':
+                p = F.strip_casts(i['ops'][0])
+                if p['k'] == 'i' and p['v'] == al:
+                    r.append(i)
+        r.sort(key=lambda i: F.order[i['id']])
+        r = [('load %s#%d' % (self.var, k), i) for k, i in enumerate(r)]
+        if self.nth is not None:
+            r = r[self.nth:self.nth + 1]
+        return r
+
+    def __str__(self):
+        return 'load of local ' + self.var
